@@ -17,12 +17,14 @@ import (
 	"net/http"
 	"net/http/httptest"
 	"os"
+	"regexp"
 	"runtime"
 	"strings"
 	"sync"
 	"sync/atomic"
 
 	goahttp "goa.design/goa/v3/http"
+	httpmw "goa.design/goa/v3/http/middleware"
 	"goa.design/goa/v3/middleware"
 	goa "goa.design/goa/v3/pkg"
 
@@ -75,6 +77,18 @@ func run(workers, ops int, seed uint64) *Result {
 		mu.Unlock()
 	}
 	var kinds [8]atomic.Int64
+	// goa's request-ID and trace middlewares in front of one handler, built once ("once handlers and middlewares
+	// have been mounted"): what they put into the request context is a function of that request alone
+	mwHandler := httpmw.RequestID(httpmw.UseXRequestIDHeaderOption(true))(
+		httpmw.Trace(httpmw.SamplingPercent(100),
+			httpmw.DiscardFromTrace(regexp.MustCompile(`^/healthz(/.*)?$`)),
+			httpmw.DiscardFromTrace(regexp.MustCompile(`^/(live|ready)z?/[a-z0-9-]+$`)))(
+			http.HandlerFunc(func(w http.ResponseWriter, r *http.Request) {
+				str := func(k any) string { v, _ := r.Context().Value(k).(string); return v }
+				b, _ := json.Marshal(map[string]string{"trace": str(middleware.TraceIDKey), "span": str(middleware.TraceSpanIDKey),
+					"parent": str(middleware.TraceParentSpanIDKey), "reqid": str(middleware.RequestIDKey), "token": r.Header.Get("X-Token")})
+				w.Write(b)
+			})))
 	// shared state, mounted once before serving
 	mux := goahttp.NewMuxer()
 	// a pre-routing middleware (as goa's Debug/Trace middlewares are mounted) asks the
@@ -112,7 +126,7 @@ func run(workers, ops int, seed uint64) *Result {
 			r := vc.NewRand(seed, uint64(g))
 			for i := 0; i < ops; i++ {
 				token := fmt.Sprintf("g%d-%d", g, i)
-				switch k := r.Intn(6); k {
+				switch k := r.Intn(7); k {
 				case 0: // muxer dispatch + Vars + ResolvePattern
 					kinds[0].Add(1)
 					var url, wantPat string
@@ -247,6 +261,45 @@ func run(workers, ops int, seed uint64) *Result {
 					kinds[4].Add(1)
 					_ = fixed.Sample()
 					_ = adaptive.Sample()
+				case 6: // request-ID + trace middlewares in front of a handler
+					kinds[6].Add(1)
+					path := "/work/" + token
+					discardedPath := false
+					switch r.Intn(4) {
+					case 0:
+						path, discardedPath = "/healthz/"+token, true
+					case 1:
+						path, discardedPath = "/ready/"+token, true
+					}
+					req := httptest.NewRequest("GET", path, nil)
+					req.Header.Set("X-Token", token)
+					inbound := r.Intn(4) == 0
+					if inbound {
+						req.Header.Set(httpmw.TraceIDHeader, "T"+token)
+						req.Header.Set(httpmw.ParentSpanIDHeader, "P"+token)
+					}
+					trusted := r.Intn(3) == 0
+					if trusted {
+						req.Header.Set("X-Request-Id", "R"+token)
+					}
+					rec := httptest.NewRecorder()
+					mwHandler.ServeHTTP(rec, req)
+					var got map[string]string
+					if err := json.Unmarshal(rec.Body.Bytes(), &got); err != nil || got["token"] != token {
+						viol("middleware:bad-response", "GET %s -> %d %q", path, rec.Code, rec.Body.String())
+						continue
+					}
+					switch {
+					case inbound && (got["trace"] != "T"+token || got["parent"] != "P"+token || got["span"] == ""):
+						viol("middleware:isolation:inbound-trace", "GET %s with TraceID T%s: context has trace %q parent %q span %q", path, token, got["trace"], got["parent"], got["span"])
+					case !inbound && discardedPath && got["trace"] != "":
+						viol("middleware:isolation:discarded-path-traced", "GET %s (discarded from tracing) got trace %q", path, got["trace"])
+					case !inbound && !discardedPath && (got["trace"] == "" || got["span"] == ""):
+						viol("middleware:isolation:sampled-request-not-traced", "GET %s (sampling 100%%, no discard pattern matches) got trace %q span %q", path, got["trace"], got["span"])
+					}
+					if trusted && got["reqid"] != "R"+token || !trusted && got["reqid"] == "" {
+						viol("middleware:isolation:request-id", "GET %s (X-Request-Id trusted=%v): request ID %q", path, trusted, got["reqid"])
+					}
 				case 5: // format validators (stateless; must stay so)
 					kinds[5].Add(1)
 					if err := goa.ValidateFormat("v", "127.0.0.1", goa.FormatIPv4); err != nil {
@@ -261,7 +314,7 @@ func run(workers, ops int, seed uint64) *Result {
 		}(g)
 	}
 	wg.Wait()
-	for i, n := range []string{"mux", "response-encoder", "error-encoder", "validate-pattern", "samplers", "validate-format"} {
+	for i, n := range []string{"mux", "response-encoder", "error-encoder", "validate-pattern", "samplers", "validate-format", "http-middlewares"} {
 		res.PerKind[n] = kinds[i].Load()
 	}
 	return res
